@@ -22,6 +22,7 @@ type Site struct {
 	Why    string
 	Root   ssa.Value
 	Guards []string
+	Zone   bool // proven by the difference-constraint closure
 }
 
 // RootInfo says which parameter of a function is attacker-chosen and the
@@ -500,8 +501,31 @@ func (fi *fnInfo) symSite(ins ssa.Instruction, b *ssa.BasicBlock) (Site, bool) {
 		s.Class, s.Why = "SAFE", ""
 		return s, true
 	}
+	if safe, _ := fi.ZoneSafe(sl, req, extra, b); safe {
+		s.Class, s.Why = "SAFE", ""
+		s.Zone = true
+		return s, true
+	}
 	if best == -1<<30 {
 		s.Have = 0
+		// first-iteration instance of a loop-carried offset with a constant start
+		if need0, ok := fi.firstIter(req, b); ok {
+			need0 += extra
+			have := fi.minLen(sl, b, map[ssa.Value]bool{})
+			if have < need0 {
+				s2 := Site{Fn: fi.fn, Ins: ins, Slice: sl, Need: need0, Have: have, What: what + fmt.Sprintf(" (first iteration: offset %d)", need0), Class: "SAFE", Root: chainOf(sl).root}
+				fi.classify(&s2, b)
+				if s2.Class == "DEF" {
+					slv, blk := sl, b
+					if fi.correlatedRelevant(blk, func() bool { return fi.minLen(slv, blk, map[ssa.Value]bool{}) >= need0 }) {
+						s2.Class, s2.Why = "UNK-corr", "a length test that would cover this access holds on some of the paths that reach it"
+					}
+				}
+				if s2.Class == "DEF" || s2.Class == "CAND-param" {
+					return s2, true
+				}
+			}
+		}
 		return s, true
 	}
 	// a guard on the same base exists but is too weak: definite iff knowledge is complete
